@@ -521,6 +521,12 @@ class MailboxSet(MailboxSetInterface[MailboxData]):
         except UnicodeEncodeError as exc:
             raise exc_type(name) from exc
 
+    def _forget(self, name: str) -> None:
+        prefix = name + self.delimiter
+        for key in [key for key in self._cache
+                    if key == name or key.startswith(prefix)]:
+            del self._cache[key]
+
     async def set_subscribed(self, name: str, subscribed: bool) -> None:
         self._check_name(name, MailboxNotFound)
         if subscribed and ('\r' in name or '\n' in name):
@@ -572,6 +578,7 @@ class MailboxSet(MailboxSetInterface[MailboxData]):
 
     async def delete_mailbox(self, name: str) -> None:
         self._check_name(name, KeyError)
+        self._forget(name)
         try:
             self._layout.remove_folder(name, self.delimiter)
         except FileNotFoundError as exc:
@@ -597,4 +604,5 @@ class MailboxSet(MailboxSetInterface[MailboxData]):
                 pass
             else:
                 raise ValueError(after)
+            self._forget(before)
             self._layout.rename_folder(before, after, self.delimiter)
